@@ -360,7 +360,7 @@ fn arbitrate(prop: &str, seed: u64, i: u64, nw: u64, total: u64, primary: u64, r
     let f1 = fresh_seq_last(prop, seed, &[i]).ok_or_else(|| format!("run {}: fresh process gave no digest", i))?;
     let f2 = fresh_seq_last(prop, seed, &[i]).ok_or_else(|| format!("run {}: fresh process gave no digest", i))?;
     if f1 != f2 {
-        return Err(format!("run {}: two fresh processes disagree ({:016x} vs {:016x}): the simulator is not deterministic", i, f1, f2));
+        return Err(format!("run {}: two fresh processes that execute the same fully explicit case disagree (history digests {:016x} vs {:016x}): something outside the simulated environment decides part of the run", i, f1, f2));
     }
     let w = i % nw;
     // what the disagreeing process had executed before run i
@@ -762,7 +762,27 @@ pub fn check_main(args: &[String]) -> i32 {
                     }
                 }
                 Ok(None) => {}
-                Err(e) => harness_errors.push(e),
+                Err(e) => {
+                    if prop == "C19" {
+                        // every source of randomness the code under test is known to use sits behind
+                        // a seam: two fresh processes that disagree on one fully explicit case mean
+                        // that the code draws on something else (an unseeded hasher, an address, a clock)
+                        let mut scratch = Stats::default();
+                        if let Some(mut c) = crate::dispatch::make_case(&prop, seed, *i, &mut scratch) {
+                            let class = "C19:not_reproducible_across_processes".to_owned();
+                            c.expect = Some(Expect { class: class.clone(), message: e.clone(), ..Default::default() });
+                            Stats::bump(&mut stats.violations, &class, 1);
+                            if !viols.iter().any(|v| v.class == class) {
+                                viols.push(VMsg { run: *i, class, message: e.clone(), minimised: false, case: c });
+                            }
+                            explained += 1;
+                        } else {
+                            harness_errors.push(e);
+                        }
+                    } else {
+                        harness_errors.push(e);
+                    }
+                }
             }
         }
         if prop == "C19" && explained > 0 && harness_errors.is_empty() {
@@ -1096,6 +1116,23 @@ pub fn replay_main(args: &[String]) -> i32 {
                 return 2;
             }
         };
+        if case.expect.as_ref().map(|e| e.class.ends_with("not_reproducible_across_processes")).unwrap_or(false) {
+            // the case is regenerated and executed from its seed and run number in several fresh processes
+            let mut ds = Vec::new();
+            for _ in 0..6 {
+                if let Some(d) = fresh_seq_last(&case.property, case.seed, &[case.run]) {
+                    ds.push(d);
+                }
+            }
+            let distinct: std::collections::BTreeSet<u64> = ds.iter().cloned().collect();
+            println!("{} fresh processes executed run {} (seed {}): {} different history digests", ds.len(), case.run, case.seed, distinct.len());
+            if distinct.len() > 1 {
+                println!("VIOLATION property={} replay={}", case.property, path);
+                return 1;
+            }
+            println!("no violation reproduced");
+            return 0;
+        }
         if case.expect.as_ref().map(|e| e.class.ends_with("real_binary_not_reproducible")).unwrap_or(false) {
             // executed by the real binary several times: same file, same input
             let bin = match crate::fidelity::real_bin() {
